@@ -16,7 +16,7 @@ from vf.checks.c12_admission import snapshot
 CFGS = ['none', 'star', 'string', 'list', 'callable', 'empty']
 LISTED = 'http://listed.example'
 ORIGINS = ['absent', 'empty', 'same', 'forwarded', 'listed', 'case', 'listed_case', 'prefix', 'suffix', 'listed_suffix',
-           'port', 'slash', 'null', 'foreign']
+           'port', 'slash', 'null', 'foreign', 'mixed_host', 'mixed_scheme']
 HOSTS = ['h', None]
 XFPS = [None, 'https', 'https, http']
 XFHS = [None, 'pub.example', 'pub.example, inner.lan']
@@ -37,7 +37,10 @@ def origin_value(name, host, xfp, xfh):
     return {'absent': None, 'empty': '', 'same': 'http://h', 'forwarded': fwd, 'listed': LISTED,
             'case': 'HTTP://H', 'listed_case': LISTED.upper(), 'prefix': 'http://liste', 'suffix': 'http://h.evil.com',
             'listed_suffix': LISTED + '.evil.com', 'port': 'http://h:8080', 'slash': 'http://h/',
-            'null': 'null', 'foreign': 'http://evil.example'}[name]
+            'null': 'null', 'foreign': 'http://evil.example',
+            # neither view: the gateway's scheme with the forwarded host, the forwarded scheme with the gateway's host
+            'mixed_host': 'http://%s' % (first(xfh) if xfh else (host or 'h')),
+            'mixed_scheme': '%s://%s' % (first(xfp) if xfp else 'http', host or 'h')}[name]
 
 
 def classify(origin, cfg, host, xfp, xfh):
@@ -60,6 +63,8 @@ def classify(origin, cfg, host, xfp, xfh):
         allowed = {LISTED}
     else:
         allowed = {LISTED, 'http://h'}
+    if cfg == 'none' and xfp and host is not None and origin == '%s://%s' % (first(xfp), host) and origin not in allowed:
+        return 'ambiguous'            # the ASGI adapter reports the forwarded scheme as the request's own
     if origin in allowed:
         if cfg == 'none' and xfp:
             return 'allowed_soft'     # scheme seen by the gateway is ambiguous under X-Forwarded-Proto
